@@ -202,27 +202,32 @@ def run(ctx, anchors=None):
             continue
         other = a if lb else b
         fal = astq.aliases(f)
-        names = set()
         pidx = {p_["d"]: i for i, p_ in enumerate(f.params)}
-        for x in walk(other):
-            if x["k"] in ("ref", "mem"):
-                for pth in astq.paths(x, fal):
-                    if pth[0][0] == "parm" and len(pth) == 1 and f is not opstep:
-                        # parameter of a helper: substitute the arguments at its call sites
-                        i = pidx.get(pth[0][1])
-                        for (g, cn) in helper_sites.get(f.id, []):
-                            obj, args_ = astq.call_args(cn)
-                            if i is not None and i < len(args_) and args_[i] is not None:
-                                for q in astq.paths(args_[i], astq.aliases(g)):
-                                    names.add([z for z in q if isinstance(z, str) and z not in ("[]", "*")][-1] if len(q) > 1 else q[0][1].split("#")[0])
-                    else:
-                        fl = [z for z in pth[1:] if z not in ("[]", "*")]
-                        names.add(fl[-1] if fl else pth[0][1].split("#")[0] if len(pth[0]) > 1 else "")
-        want = QUANT[lname]
-        ctx.site()
-        ctx.inst(want <= names, "R10.7", "quantity=%s@%s" % (lname, f.name), f.loc(n),
-                 "the quantity compared with %s involves %s" % (lname, ", ".join(sorted(want))),
-                 "the quantity compared with %s is `%s`; consensus counts %s (found only %s)" % (lname, astq.estr(other), " + ".join(sorted(want)), ", ".join(sorted(names & want)) or "none of them"))
+        # a helper that receives the quantity as a parameter is judged per call site inside the operation step (seed C01-K:
+        # `TooLarge(stack) || TooLarge(altstack)` - each stack alone may then hold 1000 items); without such sites, over all sites
+        own_sites = [(g, cn) for (g, cn) in helper_sites.get(f.id, []) if g is opstep]
+        site_groups = [[sc] for sc in own_sites] if (f is not opstep and own_sites) else [helper_sites.get(f.id, [])]
+        for hsites in site_groups:
+            names = set()
+            for x in walk(other):
+                if x["k"] in ("ref", "mem"):
+                    for pth in astq.paths(x, fal):
+                        if pth[0][0] == "parm" and len(pth) == 1 and f is not opstep:
+                            # parameter of a helper: substitute the arguments at its call sites
+                            i = pidx.get(pth[0][1])
+                            for (g, cn) in hsites:
+                                obj, args_ = astq.call_args(cn)
+                                if i is not None and i < len(args_) and args_[i] is not None:
+                                    for q in astq.paths(args_[i], astq.aliases(g)):
+                                        names.add([z for z in q if isinstance(z, str) and z not in ("[]", "*")][-1] if len(q) > 1 else q[0][1].split("#")[0])
+                        else:
+                            fl = [z for z in pth[1:] if z not in ("[]", "*")]
+                            names.add(fl[-1] if fl else pth[0][1].split("#")[0] if len(pth[0]) > 1 else "")
+            want = QUANT[lname]
+            ctx.site()
+            ctx.inst(want <= names, "R10.7", "quantity=%s@%s" % (lname, f.name) + ("#%d" % site_groups.index(hsites) if len(site_groups) > 1 else ""), f.loc(n) if len(site_groups) == 1 else opstep.loc(hsites[0][1]),
+                     "the quantity compared with %s involves %s" % (lname, ", ".join(sorted(want))),
+                     "the quantity compared with %s is `%s`; consensus counts %s (found only %s)" % (lname, astq.estr(other), " + ".join(sorted(want)), ", ".join(sorted(names & want)) or "none of them"))
 
     # ---- R10.8 the limits the batch validator applies *around* a script have a counterpart in the session: EvalScript tests the
     # size of every script it is given (the session must do so for every script it enters: the first one and each switch), and
@@ -277,6 +282,39 @@ def run(ctx, anchors=None):
     ctx.inst(len(have_num) >= 1, "R10.2b", "enforced=nMaxNumSize", have_num[0][0].loc(have_num[0][1]) if have_num else "script/script.h:0",
              "numeric operand size is checked in the CScriptNum constructor",
              "CScriptNum constructor no longer bounds the operand size")
+
+    # ---- R10.9 the combined stack-size test closes every successful operation: from each statement of the operation step that
+    # adds an element to the stack or the alt stack, every path to the function's exit evaluates the MAX_STACK_SIZE comparison or
+    # a failing return (seed C10-K: `return true` right after the data-push `pushstack` - the 1001st element, when pushed as data,
+    # is accepted). Must-pass-through on the CFG of the operation step.
+    ctx.rule("R10.9", "every path from a stack growth in the operation step to a successful return passes the MAX_STACK_SIZE test")
+    _cfg9 = opstep.cfg()
+    checks9 = [n for (f, n, r) in per_limit.get("MAX_STACK_SIZE", []) if f is opstep or f.id == opstep.id]
+    for (f, n, r) in per_limit.get("MAX_STACK_SIZE", []):       # ... or a call of a helper that makes the comparison
+        checks9 += [cn for (g, cn) in helper_sites.get(f.id, []) if g is opstep]
+    fails9 = []
+    for n in opstep.nodes():
+        if n["k"] != "return" or n.get("e") is None:
+            continue
+        e9 = n["e"]
+        if astq.const_value(e9) == 0 or (astq.is_call(e9) and (e9.get("n") or "") == "set_error" and "SCRIPT_ERR_OK" not in astq.estr(e9)):
+            fails9.append(n)
+    grows9 = []
+    for n in opstep.nodes():
+        if n["k"] == "call" and (n.get("n") or "") == "pushstack":
+            grows9.append(n)
+        elif n["k"] == "mcall" and n.get("n") in ("push_back", "emplace_back", "insert") and n.get("obj") is not None and \
+                any(y.get("k") in ("ref", "mem") and y.get("n") in ("stack", "altstack") for y in walk(n["obj"])):
+            grows9.append(n)
+    if not checks9:
+        raise AnalysisBroken("R10.9: no MAX_STACK_SIZE comparison inside the operation step")
+    open9 = [n for n in grows9 if not _cfg9.must_pass_after(n, checks9 + fails9)]
+    ctx.site(len(grows9))
+    ctx.inst(not open9, "R10.9", "size-test-after-every-growth", opstep.loc(open9[0]) if open9 else opstep.loc(checks9[0]),
+             "each of the %d statements that grow a stack is followed, on every path to a successful return, by the MAX_STACK_SIZE test" % len(grows9),
+             "after `%s` (%s) the operation step can return successfully without evaluating the MAX_STACK_SIZE test: an element pushed there is not counted against the 1000-element limit"
+             % (astq.estr(open9[0])[:50] if open9 else "", opstep.loc(open9[0]) if open9 else ""))
+    ctx.floor("R10.9", len(grows9), 10, "stack growths in the operation step")
 
     # ---- R10.3 counting shape
     al = astq.aliases(opstep)
@@ -451,6 +489,7 @@ def run(ctx, anchors=None):
 
 
 MUTANTS = [
+    dict(name="data-push-returns-before-the-size-test", file="script/interpreter.cpp", find="                pushstack(stack, vchPushValue);\n", replace="                pushstack(stack, vchPushValue);\n                return true;\n", expect=["R10.9:size-test-after-every-growth"]),
     dict(name="switch-script-size-unchecked", file="debugger/interpreter.cpp", find="        env.altstack.clear(); // every script starts with an empty alt stack\n        if ((env.sigversion == SigVersion::BASE || env.sigversion == SigVersion::WITNESS_V0) && script.size() > MAX_SCRIPT_SIZE) return set_error(serror, SCRIPT_ERR_SCRIPT_SIZE);\n", replace="        env.altstack.clear(); // every script starts with an empty alt stack\n", expect=["R10.8:script-size-at-switch"]),
     dict(name="witness-item-size-unchecked", file="instance.cpp", find="                if (item.size() > MAX_SCRIPT_ELEMENT_SIZE) {", replace="                if (item.size() > 0xffffff) {", expect=["R10.8:initial-witness-stack:MAX_SCRIPT_ELEMENT_SIZE"]),
     dict(name="tapscript-initial-stack-unchecked", file="instance.cpp", find="            if (sigver == SigVersion::TAPSCRIPT && stack.size() > MAX_STACK_SIZE) {", replace="            if (false) {", expect=["R10.8:initial-witness-stack:MAX_STACK_SIZE"]),
